@@ -163,7 +163,7 @@ def make_x86(rng, name, shape=None, force_saved=None):
     if force_saved is not None:
         saved = list(force_saved); np_ = len(saved)
     if shape == "indirect":
-        alloc = 8 * rng.range(256, 4096)
+        alloc = 8 * rng.range(256, 4096) if rng.chance(1, 2) else rng.choice([0x10000, 0x10008, 0x20010, 0x7ff00])     # up to the u16 limit of 8-byte words
     else:
         alloc = 8 * rng.range(0 if np_ else 1, 24)
     f.saved, f.alloc, f.frame = saved, alloc, False
@@ -391,6 +391,7 @@ def make_program(rng, arch, nfuncs=8):
         funcs.append(make_x86(rng, "f%d" % len(funcs), "frameless", force_saved=[15, 14, 13, 12, RBX, RBP]))
         funcs.append(make_x86(rng, "f%d" % len(funcs), rng.choice(["frameless", "indirect"]),
                               force_saved=rng.choice([[RBP, 15, 14, 13, 12, RBX], [15, 14, 13, 12, RBX, RBP], [15, 14, RBP, 13, 12, RBX]])))
+        funcs.append(make_x86(rng, "f%d" % len(funcs), "indirect", force_saved=rng.choice([[RBP], [RBX, RBP], [RBP, 12, 13]])))
     for f in funcs:
         if f.dwarf:
             f.darwin_cfi = rng.chance(1, 2)
@@ -412,6 +413,12 @@ def make_program(rng, arch, nfuncs=8):
                 f.emit(I("call" if arch == "x86" else "bl"), "body", x_call(rng) if arch == "x86" else a_word(0x94000000 | rng.below(1 << 26)))
                 f.noreturn = True
     rng.shuffle(funcs)
+    nr = [f for f in funcs if getattr(f, "noreturn", False)]
+    if nr and rng.chance(1, 2):
+        # the last function of __text ends in a call and __stubs follows it without a gap: the return address of that
+        # call is the first byte of __stubs
+        last = rng.choice(nr)
+        funcs.remove(last); funcs.append(last)
     pos = 0x1000
     gran = 1 if arch == "x86" else 4
     for f in funcs:
@@ -428,6 +435,10 @@ def make_program(rng, arch, nfuncs=8):
         text[f.start - text_lo: f.start - text_lo + f.length] = f.text()
     # stubs and stub helper after the text
     stubs_lo = (pos + 15) & ~15
+    if getattr(funcs[-1], "noreturn", False):
+        pos = funcs[-1].start + funcs[-1].length
+        text = text[: pos - text_lo]
+        stubs_lo = (pos + 3) & ~3 if arch == "a64" else pos
     nstubs = rng.range(2, 5)
     if arch == "x86":
         stubs = b"".join(bytes([0xFF, 0x25, 0x10, 0x20, 0x00, 0x00]) for _ in range(nstubs))
